@@ -102,6 +102,7 @@ class Ctx:
         self.extra: Dict[str, Any] = {}
         self._case_index = 0
         self.caps_hit: List[str] = []
+        self.backend = os.environ.get("VF_BACKEND")
 
     # -- sharding ---------------------------------------------------------
     def mine(self) -> bool:
@@ -133,6 +134,9 @@ class Ctx:
                cls: Optional[str] = None, sample: Any = None) -> None:
         """One executed case.  Distinctness = hash(case) + hash(observed shape)."""
         self.evaluations += 1
+        if self.backend:
+            self.count("backend:" + self.backend)
+            case = {"backend": self.backend, "case": case}
         if cls:
             self.count("class:" + cls)
         if nontrivial:
@@ -144,6 +148,8 @@ class Ctx:
                                          {"case": case, "observed": shape}))
 
     def violation(self, mechanism: str, message: str, case: Any, observed: Any = None) -> None:
+        if self.backend:
+            message = f"[{self.backend} backend] {message}"
         self.violations.append({
             "mechanism": mechanism,
             "message": message,
@@ -245,6 +251,13 @@ def run_shard_inproc(prop_id: str, tier: str, seed: int, shard: Tuple[int, int],
                      budget_s: Optional[float]) -> Dict[str, Any]:
     mod = load_module(prop_id)
     ctx = Ctx(prop_id, tier, seed, shard, budget_s)
+    if ctx.backend:
+        # the deciding monitor must really run under the backend it claims
+        from chuk_mcp.protocol import mcp_pydantic_base as _B
+        if _B.PYDANTIC_AVAILABLE != (ctx.backend == "pydantic"):
+            ctx.inconclusive_because(f"backend selection not effective: VF_BACKEND={ctx.backend} but "
+                                     f"PYDANTIC_AVAILABLE={_B.PYDANTIC_AVAILABLE}")
+            return ctx.dump()
     try:
         mod.run(ctx)
     except Exception:
@@ -252,6 +265,8 @@ def run_shard_inproc(prop_id: str, tier: str, seed: int, shard: Tuple[int, int],
     # secondary monitor (all virtual-loop workloads): nothing may reach the loop's exception handler
     try:
         from vf import vloop
+        import gc
+        gc.collect()   # "Task was destroyed but it is pending" is reported at collection time
         evs = [e for e in vloop.LOOP_EVENTS if "vf-" not in e]
         ctx.count("loop_exception_handler_events", len(evs))
         if evs and getattr(mod, "LOOP_EVENTS_ARE_VIOLATIONS", True):
@@ -302,21 +317,29 @@ def main(argv: Optional[List[str]] = None) -> int:
     import shutil as _sh
     _sh.rmtree(os.path.join(ROOT, "out", "replays", prop_id), ignore_errors=True)
     nshards = getattr(mod, "SHARDS", {}).get(args.tier, 1)
-    if nshards <= 1:
+    backends = getattr(mod, "BACKENDS", None)   # e.g. ["pydantic", "fallback"]: every case runs under each
+    if nshards <= 1 and not backends:
         merged = _merge([run_shard_inproc(prop_id, args.tier, args.seed, (0, 1), budget)])
     else:
         tmp = tempfile.mkdtemp(prefix=f"vf_{prop_id}_")
         procs = []
         try:
-            for i in range(nshards):
-                outp = os.path.join(tmp, f"shard{i}.json")
-                cmd = [PY, "-B", "-m", "vf.core", prop_id, "--tier", args.tier, "--seed",
-                       str(args.seed), "--shard", f"{i}/{nshards}", "--shard-out", outp]
-                if budget is not None:
-                    cmd += ["--budget", str(budget)]
-                procs.append((i, outp, subprocess.Popen(cmd, env=child_env(), cwd=ROOT,
-                                                        stdout=subprocess.DEVNULL,
-                                                        stderr=subprocess.PIPE)))
+            for b in (backends or [None]):
+                for i in range(max(1, nshards)):
+                    outp = os.path.join(tmp, f"shard{b}_{i}.json")
+                    cmd = [PY, "-B", "-m", "vf.core", prop_id, "--tier", args.tier, "--seed",
+                           str(args.seed), "--shard", f"{i}/{max(1, nshards)}", "--shard-out", outp]
+                    if budget is not None:
+                        cmd += ["--budget", str(budget)]
+                    env = child_env()
+                    env.pop("MCP_FORCE_FALLBACK", None)
+                    if b == "fallback":
+                        env["MCP_FORCE_FALLBACK"] = "1"
+                    if b:
+                        env["VF_BACKEND"] = b
+                    procs.append((f"{b or ''}{i}", outp, subprocess.Popen(cmd, env=env, cwd=ROOT,
+                                                                         stdout=subprocess.DEVNULL,
+                                                                         stderr=subprocess.PIPE)))
             parts = []
             watchdog = (budget or 900.0) * 3 + 120
             for i, outp, p in procs:
